@@ -255,6 +255,31 @@ class Builder:
         self.lit("}")
         self.expect.append(("Entry", t, k, [(fk, v)]))
 
+    def macroshadow(self, n):
+        """@string{x = {S}} + an entry whose braced value LOOKS like a macro expression (x, x#x, "x"#x ...): it is a
+        literal as long as it keeps its braces"""
+        self.lit("@string{")
+        k1 = (len(self.cs), len(self.cs) + 1)
+        self.lit("x = ")
+        v1 = (len(self.cs), len(self.cs) + 3)
+        self.lit("{S}}\n@")
+        t = (len(self.cs), len(self.cs) + 2)
+        self.lit("aa{")
+        k = (len(self.cs), len(self.cs) + 1)
+        self.lit("k, ")
+        fk = (len(self.cs), len(self.cs) + 1)
+        self.lit("f = ")
+        a = len(self.cs)
+        self.cs.append(self.eng.sym_char(f"t{len(self.cs)}", "{"))
+        for _ in range(n):
+            self.cs.append(self.eng.sym_char(f"t{len(self.cs)}", 'x#" 1'))
+        self.cs.append(self.eng.sym_char(f"t{len(self.cs)}", "}"))
+        v = (a, len(self.cs))
+        self.holes.append(("V", a, len(self.cs)))
+        self.lit("}")
+        self.expect.append(("String", k1, v1))
+        self.expect.append(("Entry", t, k, [(fk, v)]))
+
     def string(self, kl=1, vl=2, wl=1, hw=0):
         self.lit("@")
         self.hole("S", 0, "")
